@@ -579,6 +579,31 @@ func C07(c *core.Ctx) {
 					} else if strings.HasPrefix(rerr.Error(), "PANIC") {
 						got = short(rerr.Error())
 					}
+					// the same parameters given in two steps (Find with some, Constrain with the rest) select the same:
+					// visibility is the conjunction of the single-parameter conditions, however they arrive
+					if parts := strings.Split(qs, "&"); rerr == nil && len(parts) >= 2 {
+						k := 1 + r.Intn(len(parts)-1)
+						first, second := strings.Join(parts[:k], "&"), strings.Join(parts[k:], "&")
+						var out2 string
+						err2 := safeDo(func() error {
+							sel, err := b.Root().Find(tg.path + "?" + first)
+							if err != nil || sel == nil {
+								return fmt.Errorf("first step: %v", err)
+							}
+							sel2, err := sel.Constrain(second)
+							if err != nil || sel2 == nil {
+								return fmt.Errorf("second step: %v", err)
+							}
+							out2, err = nodeutil.WriteJSON(sel2)
+							return err
+						})
+						c.Evaluations++
+						c.Count("two_step", fmt.Sprint(err2 == nil))
+						if err2 != nil || out2 != out {
+							c.Violation(core.Replay{Kind: "property-failure", Class: "two-step", Summary: fmt.Sprintf("Find(%q) then Constrain(%q) gives %s; all parameters in one step give %s", tg.path+"?"+first, second, short(out2+fmt.Sprint(err2)), short(out)),
+								Input: map[string]interface{}{"yang": y, "tree": full, "find": tg.path + "?" + first, "constrain": second, "one_step": path}, Impl: out2, Spec: out})
+						}
+					}
 					line := "c07 proj " + q.model()
 					if tg.isList {
 						rowsToks := []string{fmt.Sprint(len(tg.rows))}
